@@ -36,5 +36,9 @@ for prop in sorted(os.listdir(src)):
             meta["commit_message"] = m["commit_message"]
         if old.get("rebased"):
             meta["rebased"] = old["rebased"]
+        old_head = (old.get("confirmed") or {}).get("repo_head")
+        if old_head and old_head != c["head"] and not meta.get("rebased"):
+            meta["rebased"] = (f"patch re-created against /repo {c['head']} (first confirmed at {old_head}; 3-way apply, "
+                               "conflicts with later fix: commits resolved by hand keeping the seeded change) and re-confirmed")
         json.dump(meta, open(meta_path, "w"), indent=1)
         print("kept", dst)
